@@ -42,14 +42,14 @@ ParamFails14(prog, s) ==
      \cup If(/\ A("remote-as") = {<<asn>>}
              /\ \A i \in NbrIdx(prog, v, x) : prog.nbrstmts[i].stmt = "remote-as" => prog.nbrstmts[i].iface = (s.iface # ""),
              "C14.Params.asn")
-     \cup If(A("port") = {<<s.port>>}, "C14.Params.port")
+     \cup If(A("port") = {<<s.port>>} \/ (s.port = "179" /\ A("port") = {}), "C14.Params.port")       \* 179 is FRR's default
      \cup If(A("timers") = (IF s.hold # "" /\ s.keepalive # "" THEN {<<s.keepalive, s.hold>>} ELSE {}), "C14.Params.timers")
      \cup If(A("timers connect") = (IF s.connect # "" THEN {<<s.connect>>} ELSE {}), "C14.Params.connect")
      \cup If(A("password") = (IF s.pw # "" THEN {<<s.pw>>} ELSE {}), "C14.Params.password")
      \cup If(A("update-source") = (IF s.src # "" THEN {<<s.src>>} ELSE {}), "C14.Params.source")
      \cup If((A("ebgp-multihop") # {}) = s.multihop, "C14.Params.multihop")
      \cup If(/\ A("bfd profile") = (IF s.bfd # "" THEN {<<s.bfd>>} ELSE {})
-             /\ (A("bfd") # {}) = (s.bfd # ""), "C14.Params.bfd")
+             /\ (s.bfd = "" => A("bfd") = {}), "C14.Params.bfd")                     \* `bfd profile P` implies `bfd`
      \cup If({f \in {4, 6} : Activated(prog, v, x, f)} = (IF s.disablemp THEN {s.afam} ELSE {4, 6}), "C14.Params.activation")
 
 SessionFails14(sessions, prog, s) ==
